@@ -51,6 +51,11 @@ pub enum Op {
     NeSelf,
     AddSelf,
     RetainValue(i64),
+    /// `own = [a, b]; shared.swap own; own.to_tuple()`: the shared list is exchanged with a
+    /// thread-private one (one shared container involved)
+    SwapOwn(i64, i64),
+    /// `own = [a]; own.extend shared; own.to_tuple()`: a snapshot read into a private list
+    ExtendOwnFromShared(i64),
     // map, class A
     MInsert(String, i64),
     MRemove(String),
@@ -129,6 +134,8 @@ impl Op {
             NeSelf => "shared != shared".into(),
             AddSelf => "shared + shared".into(),
             RetainValue(v) => format!("shared.retain {v}\nnull"),
+            SwapOwn(a, b) => format!("own = [{a}, {b}]\nshared.swap own\nown.to_tuple()"),
+            ExtendOwnFromShared(a) => format!("own = [{a}]\nown.extend shared\nown.to_tuple()"),
             MInsert(k, v) => format!("smap.insert '{k}', {v}"),
             MRemove(k) => format!("smap.remove '{k}'"),
             MGet(k) => format!("smap.get '{k}'"),
@@ -299,6 +306,15 @@ pub fn apply(m: &mut Model, op: &Op) -> String {
             m.list.retain(|x| x == v);
             null()
         }
+        SwapOwn(a, b) => {
+            let old = std::mem::replace(&mut m.list, vec![*a, *b]);
+            fmt_tuple(&old)
+        }
+        ExtendOwnFromShared(a) => {
+            let mut own = vec![*a];
+            own.extend(m.list.iter().copied());
+            fmt_tuple(&own)
+        }
         MInsert(k, v) => {
             if let Some(e) = m.map.iter_mut().find(|(kk, _)| kk == k) {
                 let old = e.1;
@@ -425,7 +441,7 @@ fn gen_op(r: &mut Rng, thread: usize, n: &mut i64, target_list: bool, allow_n: b
         };
     }
     if target_list {
-        match r.below(34) {
+        match r.below(37) {
             0..=3 => Op::Push(fresh()),
             4..=5 => Op::Pop,
             6..=8 => Op::Insert(ix(r), fresh()),
@@ -470,7 +486,9 @@ fn gen_op(r: &mut Rng, thread: usize, n: &mut i64, target_list: bool, allow_n: b
                 1 => Op::NeSelf,
                 _ => Op::AddSelf,
             },
-            _ => Op::RetainValue(1),
+            33 => Op::RetainValue(1),
+            34..=35 => Op::SwapOwn(fresh(), fresh()),
+            _ => Op::ExtendOwnFromShared(fresh()),
         }
     } else {
         match r.below(22) {
@@ -981,6 +999,8 @@ fn parse_op(s: &str) -> Option<Op> {
         "NeSelf" => NeSelf,
         "AddSelf" => AddSelf,
         "RetainValue" => RetainValue(int(0)?),
+        "SwapOwn" => SwapOwn(int(0)?, int(1)?),
+        "ExtendOwnFromShared" => ExtendOwnFromShared(int(0)?),
         "MInsert" => MInsert(st(0)?, int(1)?),
         "MRemove" => MRemove(st(0)?),
         "MGet" => MGet(st(0)?),
